@@ -22,6 +22,9 @@ contract("BaseWorkflow.__check_ready", props=["C01", "C06"],
              # C06(a) completeness: an open start gate means the task does not stay NONE
              ("no-waiting-in-none", "forall(self.task_list, lambda t: implies(old(t.state) == BaseTaskState.NONE and old(start_gate(t)),"
                                     " t.state != BaseTaskState.NONE))"),
+             # C09(a): the post-state is a function of the pre-state alone, whatever order the internal set is visited in
+             ("order-independent-result", "forall(self.task_list, lambda t: t.state == ite(old(t.state) == BaseTaskState.NONE and old(start_gate(t)),"
+                                          " BaseTaskState.READY, old(t.state)))"),
          ],
          modifies=["BaseTask.state@self.task_list"],
          loops={
@@ -30,6 +33,7 @@ contract("BaseWorkflow.__check_ready", props=["C01", "C06"],
                                          " old(t.state) == BaseTaskState.NONE and t.state == BaseTaskState.READY and t in _visited))"),
                  ("start-gate-respected", "forall_obj('BaseTask', lambda t: implies(t.state != old(t.state), start_gate(t)))"),
                  ("visited-complete", "forall_obj('BaseTask', lambda t: implies(t in _visited and old(start_gate(t)), t.state != BaseTaskState.NONE))"),
+                 ("changed-had-open-gate", "forall_obj('BaseTask', lambda t: implies(t.state != old(t.state), old(start_gate(t))))"),
                  ("frame", "unchanged_except('BaseTask.state', self.task_list)"),
              ],
              1: [
@@ -68,6 +72,9 @@ contract("BaseWorkflow.__check_working", props=["C01", "C03", "C06"],
              # C06(b): a READY task with workers, or a free automatic task, starts in this phase
              ("no-waiting-in-ready", "forall(self.task_list, lambda t: implies(old(t.state) == BaseTaskState.READY and work_trigger(t),"
                                      " t.state == BaseTaskState.WORKING))"),
+             # C09(a): task states after the phase are a function of the pre-state alone (any visiting order)
+             ("order-independent-task-states", "forall(self.task_list, lambda t: t.state == ite(old(t.state) == BaseTaskState.READY and work_trigger(t),"
+                                               " BaseTaskState.WORKING, old(t.state)))"),
              # C03(d): resource states only move to WORKING here, and the resources of working tasks are WORKING
              ("workers-only-to-working", MONO_W % "old"),
              ("facilities-only-to-working", MONO_F % "old"),
@@ -144,6 +151,10 @@ contract("BaseWorkflow.__check_finished", props=["C01", "C02", "C03", "C06"],
                                   " and len(t.allocated_facility_list) <= old(len(t.allocated_facility_list)))"),
              # C03(a,b) is preserved: what is still held is held exclusively and two-way
              ("consistency-preserved", "holds_exclusively(self)"),
+             # C09(a) / C15: the phase runs to a fixpoint: no WORKING task with exhausted work and an open finish gate is left,
+             # so the result does not depend on the visiting order and repeating the phase changes nothing
+             ("no-finishable-task-left", "forall(self.task_list, lambda t: implies(t.state == BaseTaskState.WORKING"
+                                         " and t.remaining_work_amount < %s, not finish_gate(t)))" % TOL),
              # C06(d): zero remaining work and a finish gate that was already open -> FINISHED in this phase
              ("no-waiting-in-working", "forall(self.task_list, lambda t: implies(old(t.state) == BaseTaskState.WORKING"
                                        " and old(t.remaining_work_amount) < %s and old(finish_gate(t)), t.state == BaseTaskState.FINISHED))" % TOL),
@@ -156,6 +167,8 @@ contract("BaseWorkflow.__check_finished", props=["C01", "C02", "C03", "C06"],
                  ("lists-never-grow", "forall(self.task_list, lambda t: len(t.allocated_worker_list) <= old(len(t.allocated_worker_list))"
                                       " and len(t.allocated_facility_list) <= old(len(t.allocated_facility_list)))"),
                  ("changed-are-visited", "forall_obj('BaseTask', lambda t: implies(task_changed(t), t in _visited))"),
+                 ("flag", "implies(not finished_task_exists, unchanged('BaseTask.state') and unchanged('BaseTask.remaining_work_amount'))"),
+                 ("visited-closed", "implies(not finished_task_exists, forall_obj('BaseTask', lambda t: implies(t in _visited, not finish_gate(t))))"),
                  ("visited-complete", "forall_obj('BaseTask', lambda t: implies(t in _visited and old(finish_gate(t)), t.state == BaseTaskState.FINISHED))"),
                  ("frame", "unchanged_except('BaseTask.state', self.task_list) and unchanged_except('BaseTask.remaining_work_amount', self.task_list)"
                            " and unchanged_except('BaseTask.allocated_worker_list', self.task_list) and unchanged_except('BaseTask.allocated_facility_list', self.task_list)"),
